@@ -107,7 +107,9 @@ func (g *gen) extractFrom(k Kind, depth int) Expr {
 	vt := Vec(n, k)
 	v := g.expr(vt, depth-1)
 	g.class("extract:vec")
-	if g.chance(70, "exswz") {
+	_, isBin := v.(*Binary)
+	if g.chance(70, "exswz") || (isBin && g.f.off("swizzle.of-binary")) {
+		// (open finding C04-2, MSL: a dynamic index applied to a binary expression loses its parentheses)
 		return &Swizzle{X: v, Comps: []int{g.intn(n, "exc")}, Set: g.intn(2, "exset"), T: Scalar(k)}
 	}
 	return &Index{X: v, I: g.indexExpr(v, n, depth-1), T: Scalar(k)}
